@@ -206,9 +206,10 @@ LITERAL = {("bindparam", "value"), ("bindparam", "callable"), ("bindparam", "eff
 #  repairs f7c5c02 / 23e322e / 3e6ec7b put them into the keys; their witnesses stay in findings/C02.json as "fixed")
 GAPS = {
     ("label", "type"): "C02-label-type-not-in-key",
+    ("bindparam", "required"): "C02-bindparam-required-not-in-key",   # read by construct_params off the CACHED bind
 }
 # a gap attribute is encoded relative to its default (None = default), so that "gap-free" means "default everywhere"
-GAP_DEFAULT = {}
+GAP_DEFAULT = {("bindparam", "required"): False}
 
 STMT_NAMES = {"statement", "stmt", "select_statement", "insert_stmt", "update_stmt", "delete_stmt"}
 EXTRA_ROOTS = {
@@ -217,6 +218,10 @@ EXTRA_ROOTS = {
     "insert": [("sqlalchemy.sql.dml", "DMLState"), ("sqlalchemy.sql.dml", "InsertDMLState"), ("sqlalchemy.sql.crud", None)],
     "update": [("sqlalchemy.sql.dml", "DMLState"), ("sqlalchemy.sql.dml", "UpdateDMLState"), ("sqlalchemy.sql.crud", None)],
     "delete": [("sqlalchemy.sql.dml", "DMLState"), ("sqlalchemy.sql.dml", "DeleteDMLState"), ("sqlalchemy.sql.crud", None)],
+}
+# further functions that read attributes of an element through a local name: (module, class, function, names)
+EXTRA_NAMED_ROOTS = {
+    "bindparam": [("sqlalchemy.sql.compiler", "SQLCompiler", "construct_params", {"bindparam", "value_param"})],
 }
 MERGE_SUFFIX = [("_binary", "binary"), ("_unary_operator", "unary"), ("_unary_modifier", "unary"), ("_func", "function")]
 
@@ -452,6 +457,10 @@ def gather_R():
             mod = importlib.import_module(modname)
             src = inspect.getsource(mod if cname is None else getattr(mod, cname))
             _loads(ast.parse(textwrap.dedent(src)), is_stmt, reads.setdefault(v, set()), dyn, "%s.%s" % (modname, cname))
+    for v, roots in EXTRA_NAMED_ROOTS.items():
+        for modname, cname, fname, names in roots:
+            fn = inspect.getattr_static(getattr(importlib.import_module(modname), cname), fname)
+            _loads(_fn_ast(fn), lambda x, names=names: isinstance(x, ast.Name) and x.id in names, reads.setdefault(v, set()), dyn, "%s.%s.%s" % (modname, cname, fname))
     return {k: sorted(x) for k, x in reads.items()}, sorted(dyn)
 
 
@@ -715,7 +724,7 @@ STRS = ["s1", "s%", "a"]
 SEL = {
     "cols": 12, "lab": 3, "ltype": 4, "where": 19, "v": 4, "v2": 3, "vs": 3, "lit": 5, "bexp": 2, "bcall": 2,
     "distinct": 2, "order": 6, "limit": 3, "offset": 2, "group": 2, "frm": 10, "setop": 5, "prefix": 3, "fu": 2,
-    "hint": 2, "fname": 4, "casttype": 3, "over": 5, "corr": 2, "pm": 3, "neg": 3, "col2": 2, "aname": 2,
+    "hint": 2, "fname": 4, "casttype": 3, "over": 5, "corr": 2, "pm": 3, "neg": 3, "col2": 2, "aname": 2, "breq": 2,
 }
 DML = {"kind": 3, "vals": 6, "v": 4, "v2": 3, "vs": 3, "ret": 3, "onc": 4, "dwhere": 3, "inline": 2, "prefix": 2, "pk": 4, "incdef": 2, "many": 2}
 TYPES = {"tcls": 28, "arg": 3, "va": 7, "v": 4}   # class / argument indices beyond the catalogue are skipped
@@ -867,6 +876,8 @@ def build_select(p):
             crit = c.x == bindparam("p", type_=Integer, callable_=lambda: v)
         elif p.get("bexp", 0):
             crit = c.x == bindparam("p", [v], type_=Integer, expanding=True)
+        elif p.get("breq", 0):  # a required parameter, executed WITHOUT a value: must raise
+            crit = c.x == bindparam("p", type_=Integer)
         elif p.get("pm", 0) == 1:  # the value arrives with the execution
             crit = c.x == bindparam("p", type_=Integer)
             params = {"p": v}
@@ -887,7 +898,7 @@ def build_select(p):
         crit = c.y >= inner.scalar_subquery()
     if crit is not None:
         s = s.where(crit)
-    if w == 14 and p.get("pm", 0) == 2 and not p.get("bcall", 0) and not p.get("bexp", 0):
+    if w == 14 and p.get("pm", 0) == 2 and not p.get("bcall", 0) and not p.get("bexp", 0) and not p.get("breq", 0):
         s = s.params(p=v2)  # statement-level parameter set
     if frm == 1:
         s = s.select_from(t.join(u, u.c.tid == t.c.id))
@@ -1423,16 +1434,18 @@ class Encoder:
 # implementation side
 # =====================================================================================================
 RELEVANT = {  # coordinate -> other coordinates that make it matter
-    "lab": {"cols": 9}, "ltype": {"cols": 10}, "bexp": {"where": 14, "bcall": 0, "pm": 0}, "bcall": {"where": 14, "bexp": 0, "pm": 0},
+    "lab": {"cols": 9}, "ltype": {"cols": 10}, "bexp": {"where": 14, "bcall": 0, "pm": 0, "breq": 0}, "bcall": {"where": 14, "bexp": 0, "pm": 0, "breq": 0},
     "over": {"cols": 6}, "fname": {"cols": 2}, "casttype": {"cols": 3}, "lit": {"where": 1}, "v": {"where": 1},
     "v2": {"where": 4}, "vs": {"where": 5}, "offset": {"limit": 1},
     "onc": {"kind": 0, "vals": 0}, "inline": {"kind": 0}, "dwhere": {"kind": 1}, "vals": {}, "pk": {"kind": 0, "vals": 0},
-    "opt": {"ent": 0}, "join": {"ent": 0}, "corr": {"where": 19}, "pm": {"where": 14, "bexp": 0, "bcall": 0},
+    "opt": {"ent": 0}, "join": {"ent": 0}, "corr": {"where": 19}, "pm": {"where": 14, "bexp": 0, "bcall": 0, "breq": 0},
+    "breq": {"where": 14, "bexp": 0, "bcall": 0, "pm": 0},
     "neg": {"cols": 0}, "incdef": {"kind": 0, "vals": 4}, "col2": {"cols": 0, "group": 0}, "aname": {"frm": 4},
 }
 GAPCOORD = {  # bexp / corr / incdef are repaired: a hit on them is an ordinary violation again
     "ltype": "C02-label-type-not-in-key",
     "bcall": "C02-construct-params-callable-from-cached-bind",
+    "breq": "C02-bindparam-required-not-in-key",
 }
 
 
@@ -1456,10 +1469,12 @@ def canon_recipe(fam, p):
         if c not in (3, 7):
             q["casttype"] = 0
         if w != 14:
-            q["bexp"] = q["bcall"] = q["pm"] = 0
+            q["bexp"] = q["bcall"] = q["pm"] = q["breq"] = 0
         if q["bcall"]:
             q["bexp"] = 0
         if q["bcall"] or q["bexp"]:
+            q["pm"] = q["breq"] = 0
+        if q["breq"]:
             q["pm"] = 0
         if w != 19:
             q["corr"] = 0
@@ -1738,10 +1753,16 @@ def impl_pair(c):
                 cb = sb.compile(dialect=d, **kw)
                 gv, wv = [], []
                 for m in _psets(pb) or [None]:  # every parameter set of the execution
-                    got = ca.construct_params(m, extracted_parameters=kb.bindparams, _collected_params=kb.params)
-                    want = cb.construct_params(m)
-                    gv.append([repr(got.get(n)) for n in (ca.positiontup or [])])
-                    wv.append([repr(want.get(n)) for n in (cb.positiontup or [])])
+                    try:
+                        got = ca.construct_params(m, extracted_parameters=kb.bindparams, _collected_params=kb.params)
+                        gv.append([repr(got.get(n)) for n in (ca.positiontup or [])])
+                    except Exception as ex:
+                        gv.append("raises %s" % type(ex).__name__)
+                    try:
+                        want = cb.construct_params(m)
+                        wv.append([repr(want.get(n)) for n in (cb.positiontup or [])])
+                    except Exception as ex:
+                        wv.append("raises %s" % type(ex).__name__)
                 if gv != wv:
                     obs["viol"] = "a compilation cached for one statement, given the extracted parameters of the other, yields %r; the other's own values are %r (%s)%s" % (gv, wv, t1, tag)
                     return obs
